@@ -40,6 +40,8 @@ struct Cmd {
     graph: String, // cover: path of a graph file written by the orchestrator from TLC's EDGE lines
     #[serde(default)]
     machine: String,
+    #[serde(default)]
+    polls: String, // report: one letter per poll of the monitor loop (see "report" below)
 }
 
 /// Labelled transition graph printed by TLC (node 0 = initial state).
@@ -247,6 +249,80 @@ fn main() {
                     })
                 )
                 .unwrap();
+            }
+            // the monitor loop's health report, poll by poll (hook service_main::verif_report_step), with the objects
+            // the loop keeps between polls.  Before each poll the agent's aggregate status file is put into the state the
+            // letter names: 's' refreshed by a healthy agent (new timestamp), 'u' left as it is (a healthy agent that has
+            // not rewritten it since: same timestamp), 'm' missing, 'v' written by another version, 'g' not JSON.
+            // MUST run in a private mount namespace with a tmpfs over /var/log (the path is a constant of the code).
+            "report" => {
+                let dir = std::path::PathBuf::from(proxy_agent_shared::proxy_agent_aggregate_status::PROXY_AGENT_AGGREGATE_STATUS_FOLDER);
+                let file = dir.join(proxy_agent_shared::proxy_agent_aggregate_status::PROXY_AGENT_AGGREGATE_STATUS_FILE_NAME);
+                if std::env::var("VERIF_VARLOG_IS_PRIVATE").unwrap_or_default() != "1" {
+                    panic!("report: refusing to write {} outside the private mount namespace", file.display());
+                }
+                std::fs::create_dir_all(&dir).unwrap();
+                logger::init_logger("/var/log/verif-ext-logs".to_string(), constants::SERVICE_LOG_FILE);
+                let version = "1.0.30".to_string();
+                let doc = |ver: &str, n: u64| {
+                    serde_json::json!({
+                        "timestamp": format!("2026-01-01T00:00:{:02}.{:03}Z", n % 60, n % 1000),
+                        "proxyAgentStatus": {
+                            "version": ver, "status": "SUCCESS",
+                            "monitorStatus": {"status": "RUNNING", "message": "m"},
+                            "keyLatchStatus": {"status": "RUNNING", "message": "k"},
+                            "ebpfProgramStatus": {"status": "RUNNING", "message": "e"},
+                            "proxyListenerStatus": {"status": "RUNNING", "message": "l"},
+                            "telemetryLoggerStatus": {"status": "RUNNING", "message": "t"},
+                            "proxyConnectionsCount": n
+                        },
+                        "proxyConnectionSummary": [], "failedAuthenticateSummary": []
+                    })
+                    .to_string()
+                };
+                let mut status = structs::StatusObj {
+                    name: "n".to_string(),
+                    operation: "o".to_string(),
+                    configurationAppliedTime: String::new(),
+                    status: constants::TRANSITIONING_STATUS.to_string(),
+                    code: 0,
+                    formattedMessage: structs::FormattedMessage { lang: "en-US".to_string(), message: String::new() },
+                    substatus: Vec::new(),
+                };
+                let mut st = common::StatusState::new();
+                let mut restored = false;
+                let mut ss = service_main::service_state::ServiceState::default();
+                let mut outs: Vec<String> = Vec::new();
+                let mut oks: Vec<u8> = Vec::new();
+                let mut have_good = false;
+                let mut last_good: Option<String> = None; // what the healthy agent wrote last (restored by 'u' after a failure)
+                for (n, ch) in cmd.polls.chars().enumerate() {
+                    match ch {
+                        's' => {
+                            let d = doc(&version, n as u64);
+                            std::fs::write(&file, &d).unwrap();
+                            last_good = Some(d);
+                            have_good = true;
+                        }
+                        'u' => {
+                            if !have_good {
+                                let d = last_good.clone().unwrap_or_else(|| doc(&version, n as u64));
+                                std::fs::write(&file, &d).unwrap();
+                                last_good = Some(d);
+                                have_good = true;
+                            }
+                        }
+                        'm' => { let _ = std::fs::remove_file(&file); have_good = false; }
+                        'v' => { std::fs::write(&file, doc("0.9.9", n as u64)).unwrap(); have_good = false; }
+                        'g' => { std::fs::write(&file, "{ not json").unwrap(); have_good = false; }
+                        other => panic!("report: unknown poll letter {}", other),
+                    }
+                    service_main::verif_report_step(&version, &mut status, &mut st, &mut restored, &mut ss);
+                    oks.push(if have_good { 1 } else { 0 });
+                    outs.push(status.status.clone());
+                }
+                let _ = std::fs::remove_file(&file);
+                writeln!(out, "{}", serde_json::json!({ "out": outs, "ok": oks })).unwrap();
             }
             "handler" => handler_drv::run(&line, &mut out),
             other => panic!("unknown kind {}", other),
